@@ -19,7 +19,8 @@ def fresh(rng, kind, used):
     while True:
         n = rng.choice([1, 2, 3, 5, 8])
         if kind == "class":
-            name = rng.choice("QZXJ") + "".join(rng.choice("abcdeiouz") for _ in range(max(1, n - 1)))      # has a lower-case rune
+            # one capital letter (the evaluator has a special case for one-character classes), else capital + lower-case runes
+            name = rng.choice("QZXJWY") + "".join(rng.choice("abcdeiouz") for _ in range(n - 1))
         else:
             name = "".join(rng.choice("qzxjwky") for _ in range(n))
             if kind == "method" and n == 1:
@@ -60,6 +61,9 @@ BINDERS = [
     "for v12 in [1, 2] do\n  dbtp v12\nend\n",
     "v1 = 1\nv2 = v1 ? 's' : nil\nif v2.nil?\n  dbtp v2\nelse\n  dbtp v2\nend\nv3 = [v1, v2]\ndbtp v3\n",
     "class Kv1\n  attr_accessor :v2\n  def initialize(v3)\n    @v2 = v3\n  end\n  def m_v4(v5)\n    v5\n  end\nend\nv6 = Kv1.new(1)\ndbtp v6.v2\ndbtp v6.m_v4('s')\nv6.nope\n",
+    "class Kv1\n  def m_v2\n    \"1\"\n  end\n  def self.m_v3\n    2\n  end\nend\ndbtp Kv1.new.m_v2\nKv1.new.m_v2 + 1\ndbtp Kv1.m_v3\nKv1.new.m_v3\nKv1.m_v2\n",
+    "class Kv1\n  def initialize(v2)\n    @v2 = v2\n  end\n  def m_v3\n    @v2\n  end\nend\nclass Kv4 < Kv1\n  def m_v5\n    m_v3\n  end\nend\ndbtp Kv4.new(1).m_v5\ndbtp Kv4.new('s').m_v3\nv6 = [Kv1.new(1), Kv4.new(2)]\ndbtp v6\nKv4.new\n",
+    "module Kv1\n  class Kv2\n    def m_v3\n      :a\n    end\n  end\nend\nv4 = Kv1::Kv2.new\ndbtp v4\ndbtp v4.m_v3\ndbtp Kv1::Kv2.new.m_v3\nKv1::Kv2.nope\n",
     "v1 = ->(v2) { v2 }\ndbtp v1\nv3 = proc { |v4| v4 }\ndbtp v3\n",
     "v1 = 5\nv1 += 1\ndbtp v1\nv2 = \"a#{v1}b\"\ndbtp v2\nv2.nope\n",
 ]
